@@ -64,8 +64,11 @@ class ModSpec:
 TAG_RE = re.compile(r'^\[([A-Z0-9 ,]+)\]\s*')
 
 
-def expand_templates(lines, path):
+def expand_templates(lines, path, shared=True):
     templates = {}
+    sp = os.path.join(VERIF, 'contracts', '_templates.vspec')
+    if shared and os.path.exists(sp) and os.path.abspath(path) != sp:
+        lines = open(sp).read().split('\n') + lines
     out = []
     cur = None
     for ln in lines:
@@ -85,11 +88,11 @@ def expand_templates(lines, path):
             if m.group(1) not in templates:
                 raise SpliceError('%s: unknown template %s' % (path, m.group(1)))
             _, params, body = templates[m.group(1)]
-            args = m.group(2).split()
+            args = m.group(2).split(None, len(params) - 1) if params else []
             if len(args) != len(params):
                 raise SpliceError('%s: @apply %s arity' % (path, m.group(1)))
             for b in body:
-                for pn, av in zip(params, args):
+                for pn, av in sorted(zip(params, args), key=lambda x: -len(x[0])):
                     b = b.replace('$' + pn, av)
                 out.append(b)
             continue
@@ -123,11 +126,12 @@ def parse_vspec(path, name):
             tags = m.group(1).replace(',', ' ').split()
             arg = arg[m.end():]
         if d == 'fn':
-            cur_fn = FnSpec(arg)
-            cur_fn.srcline = dline
             if arg in ms.fns:
-                raise SpliceError('%s:%d duplicate @fn %s' % (path, dline, arg))
-            ms.fns[arg] = cur_fn
+                cur_fn = ms.fns[arg]      # re-opened: further clauses are appended
+            else:
+                cur_fn = FnSpec(arg)
+                cur_fn.srcline = dline
+                ms.fns[arg] = cur_fn
             cur_loop = None
         elif d == 'name':
             cur_fn.name = arg
